@@ -1,4 +1,4 @@
 Require Extraction.
 Require Import ExtrOcamlBasic.
 From GR Require Import Base.Bytes Model.PosModel.
-Extraction "pos_model.ml" finalise position_bases.
+Extraction "pos_model.ml" finalise position_bases bases_tie.
